@@ -247,10 +247,19 @@ impl InnerNodeManage {
         if self.all_nodes.is_empty() {
             ProcessRange::new(0, 1)
         } else {
-            ProcessRange::new(
-                self.get_this_node().index as usize,
-                self.all_nodes.iter().filter(|(_, v)| v.is_valid()).count(),
-            )
+            // slot of this node = its rank among the VALID nodes (the order route_addr uses),
+            // modulus = number of valid nodes: every hash has exactly one live owner
+            let mut index = 0;
+            let mut len = 0;
+            for node in self.all_nodes.values() {
+                if node.is_valid() {
+                    if node.id < self.local_id {
+                        index += 1;
+                    }
+                    len += 1;
+                }
+            }
+            ProcessRange::new(index, len)
         }
     }
 
